@@ -88,9 +88,9 @@ CHECKS['C18'] = {
     'technique': TECH,
 }
 CHECKS['C14'] = {
-    'text': 'Per-function half of the statement: Verus proves on the real text of OpenReplicas that every open adds exactly one handle (creating the entry through the callback exactly on the first open, nothing created if it fails), sync is sticky across additional opens (OR-ed, never cleared by an open), close releases exactly one handle and returns true iff the document is not open afterwards, the data-structure invariant handles >= 1 is preserved by every operation (so wrapping_sub never wraps), replica / get_mut / ensure_open succeed iff open and change nothing otherwise, replica_if_syncing additionally requires the sync flag, other documents are never touched; Actor::close closes the replica in the store iff the last handle went away. The actor-loop clauses (ordering, concurrency, shutdown) are outside contracts; a bounded stand-in exercises all single-client request sequences up to length 4 (5 in the thorough tier).',
+    'text': 'Per-function half of the statement: Verus proves on the real text of OpenReplicas that every open adds exactly one handle (creating the entry through the callback exactly on the first open, nothing created if it fails), sync is sticky across additional opens (OR-ed, never cleared by an open), close releases exactly one handle and returns true iff the document is not open afterwards, the data-structure invariant handles >= 1 is preserved by every operation (so wrapping_sub never wraps), replica / get_mut / ensure_open succeed iff open and change nothing otherwise, replica_if_syncing additionally requires the sync flag, other documents are never touched; Actor::close closes the replica in the store iff the last handle went away. Twelve action arms of the actor (set_sync, subscribe, unsubscribe, get_state, sync_initial_message, get_sync_peers, get_exact, export_secret_key, drop_replica, insert_local, delete_prefix, insert_remote) are verified as lifted closures: a request on a document that is not open (or, for the sync arms, not syncing) fails and changes nothing, set_sync changes exactly the flag, inserts are counted in the metrics iff they were applied. The actor-loop clauses (ordering, concurrency, shutdown) are outside contracts; a bounded stand-in exercises all single-client request sequences up to length 4 (5 in the thorough tier) and probes every gated request kind after every state prefix.',
     'design_ref': 'DESIGN.md sections 0.4 and 5, C14',
-    'note': 'Trusted: HashMap entry API shell, subscribers opaque. Not covered by proof: actor loop ordering, concurrent clients, shutdown, the action arms; see coverage.not_covered.',
+    'note': 'Trusted: HashMap entry API shell, subscribers opaque. Not covered by proof: actor loop ordering, concurrent clients, shutdown, the dispatch match and reply helpers, the SyncProcessMessage and GetMany arms; see coverage.not_covered.',
     'technique': TECH,
 }
 CHECKS['C01'] = {
